@@ -346,6 +346,9 @@ ILL = {
     "limits-equal": ('[["aa","Ang",5.0,[5,5],"volume",""]]', 'Iq="return aa*q;"\nform_volume="return aa;"'),
     "default-outside-limits": ('[["aa","Ang",20.0,[0,10],"volume",""]]', 'Iq="return aa*q;"\nform_volume="return aa;"'),
     "duplicate-names": ('[["aa","Ang",2.0,[0,10],"volume",""],["aa","Ang",2.0,[0,10],"",""]]', 'Iq="return aa*q;"\nform_volume="return aa;"'),
+    # duplicates that only appear once vector parameters and magnetic companions are expanded into caller names
+    "duplicate-after-vector-expansion": ('[["nn","",2,[0,3],"",""],["aa[nn]","Ang",2.0,[0,10],"volume",""],["aa2","Ang",3.0,[0,10],"",""]]', 'Iq="return (aa[0]+aa2)*q;"\nform_volume="return aa[0];"'),
+    "duplicate-of-magnetic-companion": ('[["sld_a","1e-6/Ang^2",1.0,[-10,10],"sld",""],["sld_a_M0","",2.0,[0,10],"",""],["aa","Ang",2.0,[0,10],"volume",""]]', 'Iq="return (sld_a+sld_a_M0+aa)*q;"\nform_volume="return aa;"'),
     "phi-before-theta": ('[["aa","Ang",2.0,[0,10],"volume",""],["phi","degrees",0,[-360,360],"orientation",""],["theta","degrees",0,[-360,360],"orientation",""]]', 'Iq="return aa*q;"\nIqac="return aa*qab;"\nform_volume="return aa;"'),
     "orientation-not-last": ('[["theta","degrees",0,[-360,360],"orientation",""],["phi","degrees",0,[-360,360],"orientation",""],["aa","Ang",2.0,[0,10],"volume",""]]', 'Iq="return aa*q;"\nIqac="return aa*qab;"\nform_volume="return aa;"'),
     "theta-without-phi": ('[["aa","Ang",2.0,[0,10],"volume",""],["theta","degrees",0,[-360,360],"orientation",""]]', 'Iq="return aa*q;"\nIqac="return aa*qab;"\nform_volume="return aa;"'),
